@@ -7,7 +7,7 @@ import sys
 
 from rdkit import Chem
 
-from harness import oracle, corpus, common
+from harness import oracle, corpus, common, gen
 
 from synrbl.SynProcessor import RSMIDecomposer, RSMIComparator, BothSideReact, CheckCarbonBalance
 from synrbl.SynMCSImputer.utils import is_carbon_balanced
@@ -86,6 +86,8 @@ def main():
              # ring-closure digits that span a dot: one molecule although the text has two pieces
              "C1.C1", "C1.Cl1", "OC(=O)C1.N1", "c1ccccc1C2.C2", "C%11.O%11", "C1CC.O1.[Na+].[Cl-]", "C12.C1.C2", "[NH3+]C1.C1(=O)[O-]"]
     mols += extra
+    spanning = gen.dot_spanning(rng=random.Random(seed * 13 + 1))
+    mols += spanning
     outs = {}
     for s in mols:
         at = atoms_of(s)
@@ -112,6 +114,11 @@ def main():
            "[O-]P(=O)([O-])[O-]>>OP(=O)(O)O", "[Na+].[Na+].[O-]C(=O)C([O-])=O>>[Na+].[O-]C(=O)C([O-])=O",
            "C[N+](C)(C)C.C[N+](C)(C)C>>C[N+](C)(C)C.CN(C)C.[CH3+]", "[Cl-].[Cl-].[Cl-]>>[Cl-].[Cl-]", "[S-2]>>[S-]",
            "C1.Cl1.O>>CO.Cl", "OC(=O)C1.N1>>NCC(=O)O", "C1.C1>>CC", "CC(=O)OC.C1.C1>>CC(=O)O.CC"]
+    # spellings with ring closures across dots (one or several labels, %nn labels): as a balanced reaction with
+    # the canonical spelling on the other side, and with one carbon more on either side
+    for s in spanning:
+        can = Chem.MolToSmiles(Chem.MolFromSmiles(s))
+        rx += [s + ">>" + can, can + ">>" + s, s + ">>" + can + ".C", s + ".CC>>" + can]
     cc_in = []
     for s in rx:
         l, r = s.split(">>")
